@@ -25,13 +25,15 @@ type failure struct {
 }
 
 var (
-	mu       sync.Mutex
-	failures []failure
-	failKeys = map[string]bool{}
-	distinct = map[uint64]struct{}{}
-	evals    int
-	samples  []interface{}
-	cyclicN  int
+	mu         sync.Mutex
+	failures   []failure
+	failKeys   = map[string]bool{}
+	distinct   = map[uint64]struct{}{}
+	evals      int
+	samples    []interface{}
+	cyclicN    int
+	famN       = map[int]int{} // cases per name family
+	collidingN int             // cases (families >= 1) in which two edges with colliding name pairs are both present
 )
 
 func fail(key string, input interface{}, what string) {
@@ -46,12 +48,88 @@ func fail(key string, input interface{}, what string) {
 
 var fields = []string{"Build-Depends", "Build-Depends-Arch", "Build-Depends-Indep"}
 
-func srcName(i int) string { return "p" + string(rune('a'+i)) }
+// naming of one case: the source names by index and the scheme of their binary names.
+//
+//	family 0 (the original scheme): sources pa, pb, ...; binaries pa, libpa, pa-doc.
+//	family >= 1: source names from nameFamilies[family] - names that are prefixes / suffixes of each other and whose
+//	concatenations coincide for different (provider, dependent) pairs, with and without a separator character -
+//	binaries s (or s+"1"), s+"-dev", s+"-doc".
+type naming struct {
+	family int
+	src    []string
+	first1 bool // first binary is s+"1" instead of s (no binary carries the source's name)
+}
+
+// Every family is ordered so that already its first 3 (unary: 2) names contain two different ordered pairs (u,v) != (x,y)
+// with u+v == x+y (abut, unary) resp. u+sep+v == x+sep+y (dash, dot, plus); longer prefixes contain more of them.
+var nameFamilies = [][]string{
+	nil, // family 0: srcName0
+	// abut: foo+barfoo == foobar+foo, bar+foobar == barfoo+bar, lib+foobar == libfoo+bar, foo+libfoo == foolib+foo
+	{"foo", "foobar", "barfoo", "bar", "lib", "libfoo", "foolib"},
+	// unary: every two pairs with the same total length collide (aa+aaaaaaaa == aaaa+aaaaaa, aa+aaaa == aaaa+aa, ...)
+	{"aa", "aaaa", "aaaaaa", "aaaaaaaa", "aaa", "aaaaa", "aaaaaaa"},
+	// dash / dot / plus: collisions of provider+SEP+dependent: aa-(bb-aa) == (aa-bb)-aa, cc-(aa-bb) == (cc-aa)-bb, ...
+	{"aa", "aa-bb", "bb-aa", "bb", "cc", "cc-aa", "aa-cc"},
+	{"aa", "aa.bb", "bb.aa", "bb", "cc", "cc.aa", "aa.cc"},
+	{"aa", "aa+bb", "bb+aa", "bb", "cc", "cc+aa", "aa+cc"},
+}
+var familyNames = []string{"original", "abut", "unary", "dash", "dot", "plus"}
+
+func srcName0(i int) string { return "p" + string(rune('a'+i)) }
+
+// mkNaming chooses the names of a case from its seed; family 0 does not consume randomness (the original cases are unchanged).
+func mkNaming(family, n int, seed int64) naming {
+	nm := naming{family: family, src: make([]string, n)}
+	if family == 0 {
+		for i := range nm.src {
+			nm.src[i] = srcName0(i)
+		}
+		return nm
+	}
+	r := rand.New(rand.NewSource(seed ^ 0x5eed19))
+	fam := nameFamilies[family]
+	pick := make([]int, len(fam))
+	for i := range pick {
+		pick[i] = i
+	}
+	if r.Intn(3) == 0 { // a random n-subset instead of the first n names
+		pick = r.Perm(len(fam))
+	}
+	for i, j := range r.Perm(n) { // names assigned to the graph's indices in a seeded order
+		nm.src[i] = fam[pick[j]]
+	}
+	nm.first1 = r.Intn(2) == 0
+	return nm
+}
+
+func (nm naming) name(i int) string { return nm.src[i] }
 
 // binaries of source i when it has nb of them
-func binaries(i, nb int) []string {
-	s := srcName(i)
-	return []string{s, "lib" + s, s + "-doc"}[:nb]
+func (nm naming) binaries(i, nb int) []string {
+	s := nm.src[i]
+	if nm.family == 0 {
+		return []string{s, "lib" + s, s + "-doc"}[:nb]
+	}
+	b0 := s
+	if nm.first1 {
+		b0 = s + "1"
+	}
+	return []string{b0, s + "-dev", s + "-doc"}[:nb]
+}
+
+// number of pairs of different edges (u,v) != (x,y) of g whose (provider, dependent) names collide when concatenated with
+// one of the separators "", "-", ".", "+"
+func (nm naming) collidingEdgePairs(g graph) int {
+	c := 0
+	for _, sep := range []string{"", "-", ".", "+"} {
+		seen := map[string]int{}
+		for _, e := range g.edges {
+			k := nm.src[e[0]] + sep + nm.src[e[1]]
+			c += seen[k]
+			seen[k]++
+		}
+	}
+	return c
 }
 
 // ways to write a relation whose first applicable alternative on amd64 is package b
@@ -119,7 +197,9 @@ func fromMask(n int, mask uint64) graph {
 }
 
 // realise renders the .dsc texts (in input order) for the graph with seeded choices.
-func realise(g graph, r *rand.Rand) (texts []string, order []int, nbin []int) {
+// With dup, a third of the edges is written a second time (another binary of the provider and/or another field), as a
+// source build-depending on two binaries of one other source does.
+func realise(g graph, r *rand.Rand, nm naming, dup bool) (texts []string, order []int, nbin []int) {
 	has := map[[2]int]bool{}
 	for _, e := range g.edges {
 		has[e] = true
@@ -135,15 +215,20 @@ func realise(g graph, r *rand.Rand) (texts []string, order []int, nbin []int) {
 			if u == v {
 				continue
 			}
-			b := binaries(u, nbin[u])[r.Intn(nbin[u])]
+			b := nm.binaries(u, nbin[u])[r.Intn(nbin[u])]
 			f := fields[r.Intn(3)]
 			if has[[2]int{u, v}] {
 				rel[f] = append(rel[f], fmt.Sprintf(edgeForms[r.Intn(len(edgeForms))], b))
+				if dup && r.Intn(3) == 0 {
+					b2 := nm.binaries(u, nbin[u])[r.Intn(nbin[u])]
+					f2 := fields[r.Intn(3)]
+					rel[f2] = append(rel[f2], fmt.Sprintf(edgeForms[r.Intn(len(edgeForms))], b2))
+				}
 			} else if r.Intn(3) == 0 {
 				rel[f] = append(rel[f], fmt.Sprintf(decoyForms[r.Intn(len(decoyForms))], b))
 			}
 		}
-		bins := binaries(v, nbin[v])
+		bins := nm.binaries(v, nbin[v])
 		binLine := strings.Join(bins, ", ")
 		if len(bins) == 3 && r.Intn(2) == 0 {
 			binLine = bins[0] + ", " + bins[1] + ",\n " + bins[2] // folded over two lines
@@ -152,7 +237,7 @@ func realise(g graph, r *rand.Rand) (texts []string, order []int, nbin []int) {
 		if nbin[v] == 3 {
 			arch = "any all"
 		}
-		s := srcName(v)
+		s := nm.name(v)
 		t := "Format: 3.0 (quilt)\nSource: " + s + "\nBinary: " + binLine + "\nArchitecture: " + arch + "\nVersion: 1.0-1\nMaintainer: A B <a@b>\nStandards-Version: 3.9.3\n"
 		for _, f := range fields {
 			if len(rel[f]) > 0 {
@@ -184,14 +269,34 @@ func runOrder(dscs []control.DSC, arch dependency.Arch) (names []string, err err
 	return
 }
 
-func check(g graph, seed int64, arch dependency.Arch, keepSample bool) {
+func check(g graph, seed int64, family int, arch dependency.Arch, keepSample bool) {
 	r := rand.New(rand.NewSource(seed))
-	texts, order, nbin := realise(g, r)
+	nm := mkNaming(family, g.n, seed)
+	srcName := nm.name
+	binaries := nm.binaries
+	texts, order, nbin := realise(g, r, nm, family != 0)
+	if family != 0 { // the harness's own naming must be unambiguous: all source names and all binary names distinct
+		seenS, seenB := map[string]bool{}, map[string]bool{}
+		for i := 0; i < g.n; i++ {
+			if seenS[srcName(i)] {
+				fail("harness-bug", nm.src, "duplicate source name "+srcName(i))
+				return
+			}
+			seenS[srcName(i)] = true
+			for _, b := range binaries(i, nbin[i]) {
+				if seenB[b] {
+					fail("harness-bug", nm.src, "binary name "+b+" built by two sources")
+					return
+				}
+				seenB[b] = true
+			}
+		}
+	}
 	var input []string
 	for _, i := range order {
 		input = append(input, texts[i])
 	}
-	in := map[string]interface{}{"dsc_texts_in_input_order": input, "arch": "amd64", "edges_before_after": edgeNames(g)}
+	in := map[string]interface{}{"dsc_texts_in_input_order": input, "arch": "amd64", "edges_before_after": edgeNames(g, nm), "name_family": familyNames[family]}
 	h := fnv.New64a()
 	fmt.Fprint(h, g.n, g.edges, input)
 	mu.Lock()
@@ -202,8 +307,15 @@ func check(g graph, seed int64, arch dependency.Arch, keepSample bool) {
 	if g.cyclic() {
 		cyclicN++
 	}
+	famN[family]++
+	if family != 0 {
+		// both edges of a colliding pair present: the situation in which mixing up (provider, dependent) pairs shows
+		if both := nm.collidingEdgePairs(g); both > 0 {
+			collidingN++
+		}
+	}
 	if keepSample {
-		samples = append(samples, map[string]interface{}{"edges_before_after": edgeNames(g), "cyclic": g.cyclic(), "dsc_texts_in_input_order": input})
+		samples = append(samples, map[string]interface{}{"edges_before_after": edgeNames(g, nm), "cyclic": g.cyclic(), "name_family": familyNames[family], "dsc_texts_in_input_order": input})
 	}
 	mu.Unlock()
 
@@ -273,10 +385,18 @@ func check(g graph, seed int64, arch dependency.Arch, keepSample bool) {
 	}
 }
 
-func edgeNames(g graph) []string {
+func famCounts() []string {
+	out := []string{}
+	for f := 1; f < len(nameFamilies); f++ {
+		out = append(out, fmt.Sprintf("%s:%d", familyNames[f], famN[f]))
+	}
+	return out
+}
+
+func edgeNames(g graph, nm naming) []string {
 	out := []string{}
 	for _, e := range g.edges {
-		out = append(out, srcName(e[0])+"<"+srcName(e[1]))
+		out = append(out, nm.name(e[0])+"<"+nm.name(e[1]))
 	}
 	return out
 }
@@ -291,6 +411,7 @@ type job struct {
 	g      graph
 	seed   int64
 	sample bool
+	family int
 }
 
 func main() {
@@ -303,8 +424,10 @@ func main() {
 		a = &dependency.Arch{}
 	}
 	reals, maxN, sampled := 6, 5, 60000
+	famReals, famSampled := 1, 15000
 	if tier == "thorough" {
 		reals, maxN, sampled = 40, 7, 400000
+		famReals, famSampled = 8, 100000
 	}
 	var jobs []job
 	exhaustive := 0
@@ -312,7 +435,7 @@ func main() {
 		for mask := uint64(0); mask < 1<<(n*(n-1)); mask++ {
 			exhaustive++
 			for k := 0; k < reals; k++ {
-				jobs = append(jobs, job{fromMask(n, mask), rng.Int63(), false})
+				jobs = append(jobs, job{fromMask(n, mask), rng.Int63(), false, 0})
 			}
 		}
 	}
@@ -330,8 +453,36 @@ func main() {
 				}
 			}
 		}
-		jobs = append(jobs, job{g, rng.Int63(), false})
+		jobs = append(jobs, job{g, rng.Int63(), false, 0})
 	}
+	// name families 1..: the same two domains again with colliding / nested names (own random stream: the original cases above are unchanged)
+	rng2 := rand.New(rand.NewSource(seed + 1919))
+	nf := len(nameFamilies) - 1
+	for n := 2; n <= 4; n++ {
+		for mask := uint64(0); mask < 1<<(n*(n-1)); mask++ {
+			for fam := 1; fam <= nf; fam++ {
+				for k := 0; k < famReals; k++ {
+					jobs = append(jobs, job{fromMask(n, mask), rng2.Int63(), n == 4 && mask == 34 && fam == 1 && k == 0, fam}) // sample: edges 0<2, 1<3
+				}
+			}
+		}
+	}
+	for i := 0; i < famSampled; i++ {
+		n := 5 + rng2.Intn(maxN-4)
+		p := 0.05 + 0.5*rng2.Float64()
+		perm := rng2.Perm(n)
+		dag := i%4 != 0 // three quarters forced acyclic: a lost edge shows as a wrong order there
+		g := graph{n: n}
+		for u := 0; u < n; u++ {
+			for v := 0; v < n; v++ {
+				if u != v && rng2.Float64() < p && (!dag || perm[u] < perm[v]) {
+					g.edges = append(g.edges, [2]int{u, v})
+				}
+			}
+		}
+		jobs = append(jobs, job{g, rng2.Int63(), false, 1 + i%nf})
+	}
+	jobs[len(jobs)-3].sample = true
 	for _, i := range []int{reals * 3, reals * 40, reals * 69, reals * 1500, reals * 4000, len(jobs) - 2, len(jobs) - 1} {
 		jobs[i].sample = true
 	}
@@ -342,7 +493,7 @@ func main() {
 		go func(w int) {
 			defer wg.Done()
 			for i := w; i < len(jobs); i += workers {
-				check(jobs[i].g, jobs[i].seed, *a, jobs[i].sample)
+				check(jobs[i].g, jobs[i].seed, jobs[i].family, *a, jobs[i].sample)
 			}
 		}(w)
 	}
@@ -354,8 +505,16 @@ func main() {
 		"bound": fmt.Sprintf("build-dependency graphs: every edge set (no self-edges) over 1..4 sources (%d edge sets, DAG and cyclic) x %d seeded realisations each, plus %d sampled edge sets over 5..%d sources (half forced acyclic); %d of the cases are cyclic. "+
 			"Realisation: 1..3 binaries per source (Binary: pa, libpa, pa-doc; 3-element lists folded over two lines half the time), each edge a build-dependency on one of the target's binaries in one of Build-Depends / -Arch / -Indep written in one of %d forms "+
 			"(plain, versioned, after an alternative excluded by [!amd64], behind a substvar alternative, with admitting arch lists, mixed), non-edges mentioned in 1/3 of the cases in one of %d forms that must not count (first applicable alternative outside the set, arch list excluding amd64), "+
-			"relations sometimes folded; sources given in a seeded random input order; arch amd64; each case run 3 times", exhaustive, reals, sampled, maxN, cyclicN, len(edgeForms), len(decoyForms)),
-		"rule":                "each source rendered as .dsc text, parsed with control.ParseDsc, ordered with OrderDSCForBuild. Oracle = the harness's own edge set: error iff it has a cycle (Kahn), otherwise result is a permutation of the input sources with every edge u<v respected; the three runs must agree exactly. Distinct = distinct (edge set, rendered texts, input order); cases without any edge count as trivial",
+			"relations sometimes folded; sources given in a seeded random input order; arch amd64; each case run 3 times. "+
+			"ADDED name families (the cases above keep the names pa, pb, ...: %d cases): every edge set over 2..4 sources x %d realisation(s) for each of %d families of source names, plus %d sampled edge sets over 5..%d sources (3/4 forced acyclic) spread over the families (%v cases per family). "+
+			"Families = names that are prefixes/suffixes of each other and for which different (provider, dependent) pairs give the same string when joined without or with a separator: "+
+			"abut %q (foo+barfoo == foobar+foo, lib+foobar == libfoo+bar, ...), unary %q (all pairs of equal total length), dash %q, dot and plus likewise with '.' and '+' (aa-(bb-aa) == (aa-bb)-aa, ...); "+
+			"per case the first n names of the family (1/3 of the cases: a random n-subset) assigned to the graph's sources in a seeded order; binaries s (half of the cases s+\"1\", so that no binary has the source's name), s-dev, s-doc, all source and binary names of a case pairwise distinct (checked); "+
+			"in these cases a third of the edges is written twice (a second build-dependency on the same or another binary of the same provider, in the same or another field). "+
+			"%d of the name-family cases contain two edges whose name pairs collide under one of the separators \"\", '-', '.', '+'",
+			exhaustive, reals, sampled, maxN, cyclicN, len(edgeForms), len(decoyForms),
+			famN[0], famReals, len(nameFamilies)-1, famSampled, maxN, famCounts(), nameFamilies[1], nameFamilies[2], nameFamilies[3], collidingN),
+		"rule":                "each source rendered as .dsc text, parsed with control.ParseDsc, ordered with OrderDSCForBuild. Oracle = the harness's own edge set: error iff it has a cycle (Kahn), otherwise result is a permutation of the input sources with every edge u<v respected; the three runs must agree exactly. Distinct = distinct (edge set, rendered texts, input order); cases without any edge count as trivial. The oracle does not depend on the names: the name families only change the rendered Source/Binary/Build-Depends texts",
 		"evaluations":         evals,
 		"distinct_nontrivial": len(distinct),
 		"exhaustive":          false,
